@@ -218,7 +218,9 @@ def execute(sc):
       violation('inputs', f'P2:argument-state-changed-by-apply:{tname}', f'{label} {what} on state#{ni}: {d}')
     return new_state, aux
 
-  for oi, op in enumerate(sc['ops']):
+  def run_ops():
+   nonlocal obj, seen_clients
+   for oi, op in enumerate(sc['ops']):
     kind = op[0]
     if kind == 'retry':
       if not applies:
@@ -313,7 +315,13 @@ def execute(sc):
       used[ni] = used.get(ni, 0) + 1
       applies.append((ni, cohort, key_seed, drop, fedsim.tree_bits(r1[0]), fedsim.tree_bits(r1[1])))
       nodes.append(r1[0])
-      obj = obj2 if False else obj
+  try:
+    run_ops()
+  except RuntimeError as e:
+    # a buffer of a state that the caller still holds was deleted (donated) by the system under test
+    if 'deleted' not in str(e):
+      raise
+    violation('inputs', f'P2:buffer-of-a-kept-state-deleted:{tname}', f'{label}: {str(e)[:160]}')
   bk = 'pmap' if isinstance(sc.get('backend'), list) else sc.get('backend')
   hkey = hashlib.sha256(repr((tname, bk, kinds)).encode()).hexdigest()[:12]
   nontriv = [hkey] if (probes.get('retry_after_other_calls') or probes.get('branch_from_old_state')
